@@ -216,6 +216,9 @@ func decodeGuaranteeBytes(data []byte) (*CE145Guarantee, error) {
 		}
 		rest = rest[ce145SigEntrySize:]
 	}
+	if len(rest) != 0 {
+		return nil, fmt.Errorf("%d trailing bytes after the guarantee", len(rest))
+	}
 
 	g := &CE145Guarantee{Slot: slot, Signatures: sigs}
 	if err := g.Validate(); err != nil {
@@ -332,6 +335,8 @@ func (p *CE145Payload) Decode(data []byte) error {
 			return fmt.Errorf("failed to decode guarantee: %w", err)
 		}
 		p.Guarantee = g
+	} else if len(data) != ce145HeaderSize {
+		return fmt.Errorf("%d trailing bytes after a judgment without guarantee", len(data)-ce145HeaderSize)
 	}
 	return p.Validate()
 }
